@@ -8,7 +8,7 @@ from ..prv import Pvt, PrvError
 
 ID = "C13"
 LEVEL = "exploration"
-RUNS = {"quick": 3000, "thorough": 30000}
+RUNS = {"quick": 3500, "thorough": 30000}
 RULE = ("accepted emulations of seeded legal histories chosen for output diversity: all eight models in rotation (1-4 per run), 1-4 looms, "
         "with/without ranks, with/without -b (breakdown), marks with labels, task types; every .prv/.pcf/.row produced is parsed by an "
         "independent parser and validated; distinct = hash of the action list; non-trivial = at least two models besides ovni or a "
